@@ -259,6 +259,88 @@ def read_chunk(f, offset, size):'''),
             data_ = []'''),
       (XR, '''        with self.lock:
             return self.array[key]''', '''        return self.array[key]''')]),
+    # ------------------------------------------------------------------ second generation
+    ("c11_read_one_byte_more", "C11", "violation", "each chunk read asks for one byte beyond its group",
+     [(A, """    f.seek(offset)
+
+    return f.read(size)""", """    f.seek(offset)
+
+    return f.read(size + 1)[:size]""")]),
+    ("c07_cached_open_peeks_image", "C07", "violation",
+     "decoding a cached array peeks at the image descriptor",
+     [(DE, """    type_code = encoded["type_code"]
+    url = encoded["url"]""", """    type_code = encoded["type_code"]
+    url = encoded["url"]
+    try:
+        fs.cat_file(url, start=0, end=720)
+    except OSError:
+        pass""")]),
+    ("c18_shape_from_records_if_short", "C18", "violation",
+     "image shape follows the records actually parsed when there are fewer than declared",
+     [(MD, """    shape = extract_shape(header)""",
+           """    shape = extract_shape(header)
+    if len(byte_ranges) < shape[0]:
+        shape = (len(byte_ranges), shape[1])""")]),
+    ("c18_missing_image_skipped", "C18", "violation", "a missing image file drops its group silently",
+     [(TOP, """    imagery_groups = list(
+        map(
+            curry(
+                sar_image.open_image,
+                mapper,
+                records_per_chunk=records_per_chunk,
+                create_cache=create_cache,
+                use_cache=use_cache,
+            ),
+            filenames["sar_imagery"],
+        )
+    )""", """    def open_existing(path):
+        try:
+            return sar_image.open_image(
+                mapper,
+                path,
+                records_per_chunk=records_per_chunk,
+                create_cache=create_cache,
+                use_cache=use_cache,
+            )
+        except FileNotFoundError:
+            return None
+
+    imagery_groups = [g for g in map(open_existing, filenames["sar_imagery"]) if g is not None]""")]),
+    ("c18_retry_forever", "C18", "violation", "short reads of the descriptor are retried without bound",
+     [(IO, """def read_file_descriptor(f):
+    return file_descriptor_record.parse(f.read(720))""", """def read_file_descriptor(f):
+    content = f.read(720)
+    while len(content) < 720 and len(content) > 0:
+        f.seek(0)
+        content = f.read(720)
+    return file_descriptor_record.parse(content)""")]),
+    ("c06_cached_rpc_one_ignored", "C06", "violation",
+     "cached path maps records_per_chunk=1 to the default",
+     [(DE, """        records_per_chunk=records_per_chunk,
+    )
+
+
+def decode_variable""", """        records_per_chunk=records_per_chunk if records_per_chunk != 1 else None,
+    )
+
+
+def decode_variable""")]),
+    ("c10_default_options_polluted", "C10", "violation",
+     "the shared default backend_options dict remembers the last explicit request size",
+     [(XR, """    root = io.open(path, **backend_options)""",
+           """    if "records_per_chunk" in backend_options:
+        open_alos2.__defaults__[1]["records_per_chunk"] = backend_options["records_per_chunk"]
+    root = io.open(path, **backend_options)""")]),
+    ("c09_decode_lenient_prefix", "C09", "violation",
+     "a torn index whose text ends inside the top-level object is 'completed' and used",
+     [(CA, """    try:
+        return decode(content, records_per_chunk=records_per_chunk, mapper=mapper)""",
+           """    try:
+        if content.startswith("{") and not content.rstrip().endswith("}"):
+            cut = content.rfind(', "')
+            if cut > 0:
+                content = content[:cut] + "}" * (content[:cut].count("{") - content[:cut].count("}"))
+        return decode(content, records_per_chunk=records_per_chunk, mapper=mapper)""")]),
 ]
 
 
